@@ -434,7 +434,55 @@ class NewBlock(PyModel):
     def m_str(self, it, s):
         self.name = str(s).replace('Block ', '')
 
-@obligation('C15.fill_block_entry', fns=[(IO, 'GM2_slha_io::fill_block_entry')])
+FILL_ENTRY_REPLAY = r'''
+#include "gm2_slha_io.hpp"
+#include <sstream>
+#include <iostream>
+#include <string>
+#include <vector>
+// REAL GM2_slha_io::fill_block_entry (both overloads) for every position of the target block (first, middle, last, absent): afterwards the target block
+// holds the new entry and every other block is printed exactly as before
+static int bad = 0;
+static std::string block_text(const std::string& out, const std::string& name) {
+   std::istringstream is(out); std::string l, cur, acc;
+   while (std::getline(is, l)) {
+      std::istringstream ls(l); std::string w; ls >> w;
+      if (w == "Block" || w == "BLOCK" || w == "block") { ls >> cur; continue; }
+      if (cur == name) acc += l + "\n";
+   }
+   return acc;
+}
+int main() {
+   const std::vector<std::vector<std::string>> layouts = {{"A","B","C"}, {"B","A","C"}, {"A","C","B"}, {"A","C"}};
+   for (int variant = 0; variant < 2; variant++)
+   for (const auto& names : layouts) {
+      std::string in;
+      for (const auto& n : names) in += "Block " + n + "\n     7     1.50000000E+00   # old " + n + "\n";
+      gm2calc::GM2_slha_io io; std::istringstream is(in); io.read_from_stream(is);
+      std::ostringstream before; io.write_to_stream(before);
+      if (variant == 0) io.fill_block_entry("B", 4, "some message"); else io.fill_block_entry("B", 4, 2.5, "a number");
+      std::ostringstream after; io.write_to_stream(after);
+      std::string lay; for (const auto& n : names) lay += n;
+      const std::string tb = block_text(after.str(), "B");
+      if (tb.find(variant == 0 ? "some message" : "2.5") == std::string::npos) { bad++; std::cout << "layout " << lay << (variant ? " (number)" : " (text)") << ": block B does not hold the new entry 4\n"; }
+      for (const auto& n : names) if (n != "B" && block_text(before.str(), n) != block_text(after.str(), n)) {
+         bad++; std::cout << "layout " << lay << (variant ? " (number)" : " (text)") << ": block " << n << " changed from\n" << block_text(before.str(), n) << "to\n" << block_text(after.str(), n);
+      }
+      if (block_text(before.str(), "B").size() && tb.find("old B") == std::string::npos) { bad++; std::cout << "layout " << lay << ": the old entry of block B was lost\n"; }
+   }
+   std::cout << bad << " violations of the fill_block_entry frame contract\n";
+   return bad ? 1 : 0;
+}
+'''
+
+def replay_fill_entry(model, wd):
+    from gm2v import native
+    import subprocess
+    exe = native.build_against_library(wd, FILL_ENTRY_REPLAY, name='fill_entry')
+    r = subprocess.run([exe], capture_output=True, text=True, timeout=120)
+    return r.returncode == 1, r.stdout.strip()[-1500:]
+
+@obligation('C15.fill_block_entry', fns=[(IO, 'GM2_slha_io::fill_block_entry')], replay=replay_fill_entry)
 def _(ctx):
     """frame over the whole SLHA view: fill_block_entry(name, entry, value, comment) sets exactly entry `entry` of the block called `name`
     (creating the block if it is missing) and leaves every other block and entry unchanged -- for every position of that block in the
@@ -483,7 +531,52 @@ def _(ctx):
                        'target entry written=%s, other blocks untouched=%s, block count ok=%s; view=%s' % (ok_target, others, count, [(b[0], sorted(b[1])) for b in coll.blocks]))
             ctx.merge_rules(it)
 
-@obligation('C15.slha_writer', fns=[(MAIN, 'SLHA_writer::operator()')])
+def replay_slha_writer(model, wd):
+    """run the REAL program on input/example.thdm and input/example.slha for the three SLHA output formats with and without uncertainty, with foreign
+    LOWEN[1]/SPhenoLowEnergy[1] entries present in the input: a_mu must appear at the documented key, the uncertainty at GM2CalcOutput[1] exactly when
+    requested, and the foreign entries must come out unchanged"""
+    from gm2v import native
+    from gm2v.world import REPO
+    import subprocess, re, os
+    exe = native.build_gm2calc()
+    bad = []
+    def blocks(txt):
+        out, cur = {}, None
+        for l in txt.splitlines():
+            s = l.split('#')[0].split()
+            if not s:
+                continue
+            if s[0].lower() == 'block':
+                cur = s[1].upper()
+                out.setdefault(cur, {})
+            elif cur is not None and len(s) >= 2:
+                out[cur][' '.join(s[:-1])] = s[-1]
+        return out
+    for fname, flag in (('example.thdm', '--thdm-input-file=-'), ('example.slha', '--slha-input-file=-')):
+        src = open(os.path.join(REPO, 'input', fname)).read()
+        for fmt, (blk, key) in ((2, ('LOWEN', '6')), (3, ('SPHENOLOWENERGY', '21')), (4, ('GM2CALCOUTPUT', '0'))):
+            for unc in (0, 1):
+                inp = re.sub(r'(?m)^(\s*0\s+)\d(\s+# output format)', r'\g<1>%d\2' % fmt, src, 1)
+                inp = re.sub(r'(?m)^(\s*5\s+)\d(\s+# calculate uncertainty)', r'\g<1>%d\2' % unc, inp, 1)
+                inp += 'Block LOWEN\n     1     3.26000000E-04   # foreign entry\nBlock SPhenoLowEnergy\n     1     4.50000000E-04   # foreign entry\n'
+                r = subprocess.run([exe, flag], input=inp, capture_output=True, text=True, timeout=120)
+                b = blocks(r.stdout)
+                tag = '%s format %d uncertainty %d' % (fname, fmt, unc)
+                if r.returncode != 0:
+                    bad.append('%s: exit %d' % (tag, r.returncode))
+                    continue
+                if key not in b.get(blk, {}):
+                    bad.append('%s: a_mu missing at %s[%s]' % (tag, blk, key))
+                has_unc = '1' in b.get('GM2CALCOUTPUT', {})
+                if has_unc != bool(unc):
+                    bad.append('%s: GM2CalcOutput[1] %s' % (tag, 'missing' if unc else 'written although not requested'))
+                for fb, fv in (('LOWEN', 3.26e-4), ('SPHENOLOWENERGY', 4.5e-4)):
+                    got = b.get(fb, {}).get('1')
+                    if got is None or abs(float(got) - fv) > 1e-9:
+                        bad.append('%s: input entry %s[1] = %g came out as %s' % (tag, fb, fv, got))
+    return bool(bad), 'gm2calc.x on input/example.{thdm,slha}, formats 2/3/4 x uncertainty 0/1: ' + ('; '.join(bad[:8]) if bad else 'all entries at the documented keys')
+
+@obligation('C15.slha_writer', fns=[(MAIN, 'SLHA_writer::operator()')], replay=replay_slha_writer)
 def _(ctx):
     """SLHA output formats: a_mu = calculate_amu(model, options) goes to LOWEN[6] (NMSSMTools), SPhenoLowEnergy[21] (SPheno),
     GM2CalcOutput[0] (otherwise); the uncertainty goes to GM2CalcOutput[1] exactly when requested; SPINFO is touched only if the model has warnings"""
